@@ -69,7 +69,7 @@ def run_property(pid, spec, tier, seed, deadline=None):
     runs = spec["runs"](tier)
     if tier == "thorough":  # the big enumerations get a larger share of the deadline than the threshold / structure runs
         for r in runs:
-            if any(a in r.args for a in ("--mode=lift", "--mode=tiny", "--mode=grid", "--mode=gl")): r.weight = max(getattr(r, 'weight', 1.0), 6.0)
+            if any(a in r.args for a in ("--mode=lift", "--mode=tiny", "--mode=grid", "--mode=gl")) or (r.kind == "fsx" and any(a.startswith("--depth=7") for a in r.args)): r.weight = max(getattr(r, 'weight', 1.0), 6.0)
     total_deadline = deadline if deadline is not None else (int(os.environ.get("VERIF_DEADLINE_S", "1200")) if tier == "thorough" else int(os.environ.get("VERIF_QUICK_DEADLINE_S", "600")))
     results = []
     scratch = tempfile.mkdtemp(prefix="m4ri-verif-run-")
